@@ -16,7 +16,7 @@ from vlib.mc import enum as E
 PROPERTY = 'C16'
 LEVEL = 'exploration'
 ENGINE = 'C'
-TECHNIQUE = ('bounded-exhaustive enumeration of text x encoding x error-policy '
+TECHNIQUE = ('stateless bounded model checking: complete enumeration of text x encoding x error-policy '
              'products against a reference; to_slug over every Unicode code '
              'point')
 LEVEL_TEXT = ('The complete product of the text alphabet (ASCII, Latin-1, CJK, '
